@@ -34,9 +34,31 @@ func verifOpms() (*server.OpMetric, *server.OpMetric) {
 // verifDisk is MemDisk with one test-double limitation removed: MemDisk.Read slices
 // files[fd][off:] and panics when off is beyond the end of the file, where a real disk
 // (Manager/ChecksumFile) reports a zero-length read at EOF.  Everything else is MemDisk.
-type verifDisk struct{ *MemDisk }
+//
+// It can also emulate a PROCESS CRASH at a data write: ArmCrash(id) makes the next Write to
+// that tract "kill the process" — the write does not happen and from then on this incarnation
+// of the tractserver changes nothing on the disk any more (its cleanup code does not run in a
+// real crash either).  The harness then calls VerifTS.Restart().
+type verifDisk struct {
+	*MemDisk
+	crashOn map[core.TractID]bool
+	dead    bool
+}
 
-func (d verifDisk) Read(ctx context.Context, f interface{}, b []byte, off int64) (int, core.Error) {
+func (d *verifDisk) idOf(f interface{}) (core.TractID, bool) {
+	fd, ok := f.(uint32)
+	if !ok {
+		return core.TractID{}, false
+	}
+	for id, x := range d.MemDisk.fds {
+		if x == fd {
+			return id, true
+		}
+	}
+	return core.TractID{}, false
+}
+
+func (d *verifDisk) Read(ctx context.Context, f interface{}, b []byte, off int64) (int, core.Error) {
 	d.MemDisk.lock.Lock()
 	if d.MemDisk.fds != nil {
 		if fd, ok := f.(uint32); ok {
@@ -50,6 +72,41 @@ func (d verifDisk) Read(ctx context.Context, f interface{}, b []byte, off int64)
 	return d.MemDisk.Read(ctx, f, b, off)
 }
 
+func (d *verifDisk) Write(ctx context.Context, f interface{}, b []byte, off int64) (int, core.Error) {
+	if d.dead {
+		return 0, core.ErrIO
+	}
+	d.MemDisk.lock.Lock()
+	id, ok := d.idOf(f)
+	d.MemDisk.lock.Unlock()
+	if ok && d.crashOn[id] {
+		d.dead = true
+		return 0, core.ErrIO
+	}
+	return d.MemDisk.Write(ctx, f, b, off)
+}
+
+func (d *verifDisk) Open(ctx context.Context, id core.TractID, flags int) (interface{}, core.Error) {
+	if d.dead {
+		return uint32(0), core.ErrIO
+	}
+	return d.MemDisk.Open(ctx, id, flags)
+}
+
+func (d *verifDisk) Setxattr(f interface{}, name string, value []byte) core.Error {
+	if d.dead {
+		return core.ErrIO
+	}
+	return d.MemDisk.Setxattr(f, name, value)
+}
+
+func (d *verifDisk) Delete(id core.TractID) core.Error {
+	if d.dead {
+		return core.ErrIO
+	}
+	return d.MemDisk.Delete(id)
+}
+
 // VerifTS is one in-process tractserver.
 type VerifTS struct {
 	ID       core.TractserverID
@@ -57,10 +114,11 @@ type VerifTS struct {
 	Store    *Store
 	Restarts int
 
-	tt  TractserverTalker
-	cfg Config
-	ctl *TSCtlHandler
-	srv *TSSrvHandler
+	tt   TractserverTalker
+	cfg  Config
+	ctl  *TSCtlHandler
+	srv  *TSSrvHandler
+	disk *verifDisk
 }
 
 // VerifNewTS creates a tractserver with a fresh MemDisk and the given id; 'tt' is how its
@@ -75,7 +133,8 @@ func VerifNewTS(id core.TractserverID, tt TractserverTalker) *VerifTS {
 func (t *VerifTS) boot() {
 	cfg := t.cfg
 	t.Store = NewStore(t.tt, NewMetadataStore(), &cfg)
-	if err := t.Store.AddDisk(verifDisk{t.Disk}); err != nil {
+	t.disk = &verifDisk{MemDisk: t.Disk, crashOn: map[core.TractID]bool{}}
+	if err := t.Store.AddDisk(t.disk); err != nil {
 		panic("verif: AddDisk: " + err.Error())
 	}
 	// After a restart the id is loaded from the meta tract on the disk; SetID then just returns it.
@@ -94,6 +153,13 @@ func (t *VerifTS) Restart() {
 	t.Restarts++
 	t.boot()
 }
+
+// ArmCrash makes this incarnation of the tractserver die at its next data write to the tract
+// (see verifDisk).  Restart() afterwards.
+func (t *VerifTS) ArmCrash(id core.TractID) { t.disk.crashOn[id] = true }
+
+// Crashed reports whether the armed crash has happened.
+func (t *VerifTS) Crashed() bool { return t.disk.dead }
 
 func verifErr(e error, reply core.Error) core.Error {
 	if e != nil {
